@@ -32,7 +32,7 @@ class C10(Property):
     design_ref = "5.10"
     level_text = (
         "Lean 4 theorems over the model of src/reader/{decoder,encoding,u16_iter}.rs, for every text (unbounded) and every DecodeBeatmap "
-        "implementation: a UTF-8 BOM is transparent (utf8_bom_transparent); the reader yields exactly the text's lines from UTF-8 for every text "
+        "implementation: a UTF-8 BOM is transparent for every file that does not itself start with a BOM (utf8_bom_transparent, including the files of 1-2 bytes which the BOM sniffing consumes: frame_short); the reader yields exactly the text's lines from UTF-8 for every text "
         "(utf8_lines), and from UTF-16LE/BE for every text none of whose code units other than U+000A contains the byte 0x0A "
         "(utf16_lines_transparent_partial; from_bytes with BOMs: utf16_transparent_partial); the unrestricted statement is kept as "
         "utf16_transparent_statement and its NEGATION is proved on the witness U+010A (finding F5), FF FE 0A is proved to fail with "
@@ -44,10 +44,11 @@ class C10(Property):
         "against String::from_utf8_lossy / char::decode_utf16 applied per line and an independent framing transcription.")
     technique = "Lean 4 proof (encoders vs decoders, structural line splitting) + differential correspondence over encodings and injections"
     required_theorems = [
-        "utf8_bom_transparent", "utf8_lines", "utf16be_lines_partial", "utf16le_lines_partial", "utf16_lines_transparent_partial",
+        "utf8_bom_transparent", "utf8_bom_transparent_ge3", "utf8_bom_transparent_short", "short_files_lose_content", "frame_short",
+        "utf8_lines", "utf16be_lines_partial", "utf16le_lines_partial", "utf16_lines_transparent_partial",
         "utf16_transparent_partial", "utf16_transparent_false", "utf16le_dangling_lf_errors", "lossy_line_local", "lossy_first_line",
         "utf8_valid_roundtrip", "utf16_valid_roundtrip", "ascii_passthrough", "invalid_lead_replaced", "lossy_examples",
-        "surrogate_replaced_low", "surrogate_replaced_high", "surrogate_pair_decoded", "odd_tail_dropped",
+        "surrogate_replaced", "surrogate_replaced_low", "surrogate_replaced_high", "surrogate_pair_decoded", "odd_tail_dropped",
     ]
     partial_theorems = {
         "utf16_transparent_partial": "needs noStrayLF (no UTF-16 code unit other than U+000A contains the byte 0x0A): the unrestricted "
@@ -55,9 +56,6 @@ class C10(Property):
                                      "utf16le_dangling_lf_errors, finding F6); also needs a UTF-8 form of >= 3 bytes not starting with U+FEFF",
         "utf16_lines_transparent_partial": "same noStrayLF hypothesis, at the level of the lines the reader yields",
         "utf16be_lines_partial": "noStrayLF", "utf16le_lines_partial": "noStrayLF",
-        "utf8_bom_transparent": "stated for files of >= 3 bytes (or empty) that do not themselves start with a BOM; a file of 1 or 2 bytes is "
-                                "consumed by the BOM sniffing (same mechanism as finding F4), which cannot change the outcome since no "
-                                "version line or header fits in two bytes, but that last step is not proved",
         "lossy_examples": "the maximal-subpart rule is proved on the documented cases and for single invalid lead bytes "
                           "(invalid_lead_replaced), not as equality with a separately stated general specification; the general equality with "
                           "String::from_utf8_lossy is checked differentially",
